@@ -107,8 +107,9 @@ func (v *Val) Field(name string) *Val {
 
 const Eps = 1e-9
 
-// NumEq is the language's numeric equality: |a-b| < 1e-9 (NaN equals nothing).
-func NumEq(a, b float64) bool { return math.Abs(a-b) < Eps }
+// NumEq is the language's numeric equality: identical, or |a-b| < 1e-9 (NaN
+// equals nothing; an infinity equals itself).
+func NumEq(a, b float64) bool { return a == b || math.Abs(a-b) < Eps }
 
 // ValEqual is the language's structural equality (== on values): numbers by
 // tolerance, times by instant, objects by field name, maps by key set.
